@@ -563,7 +563,8 @@ pub fn run(run: &mut Run) {
     let mut cc = vec![];
     for v in build::COUNTED {
         for compressed in [false, true] {
-            for n in 0..=255usize {
+            // 256..=260: the count byte cannot express these; they must be refused (by whatever guard), never emitted wrapped
+            for n in 0..=260usize {
                 cc.push(CountCase { variant: v.to_string(), compressed, n });
             }
         }
